@@ -310,6 +310,111 @@ fn crash_cases(sink: &mut Sink, scratch: &str) {
 /// HTTP server, checked by the binary.  With `extends_sha256` present the body takes effect only
 /// if its hash is the pin — an empty or blank pin is a pin no content has — and a rejected body
 /// is not written anywhere.
+/// The fetch policy as the user gives it (`--extends-policy`), for every command that loads a
+/// configuration: offline never contacts the server and fails on a cache miss; refresh always
+/// contacts it; normal uses the fresh copy a moment later.
+fn e2e_policies(sink: &mut Sink, scratch: &str) {
+    use std::io::{Read, Write};
+    let Ok(bin) = std::env::var("SGVERIF_BIN") else { return };
+    let body = "version = \"2\"\n[content]\nmax_lines = 5\n";
+    let commands: Vec<(&str, Vec<&str>)> = vec![
+        ("check", vec!["check", "--no-sloc-cache", "--warn-only", "."]),
+        ("stats summary", vec!["stats", "summary", "--no-sloc-cache"]),
+        ("config show", vec!["config", "show"]),
+        ("config validate", vec!["config", "validate"]),
+    ];
+    for (label, cmd) in commands {
+        if !sink.want() {
+            sink.skip();
+            continue;
+        }
+        let Ok(listener) = std::net::TcpListener::bind("127.0.0.1:0") else {
+            sink.push(Case { request: "noop".into(), implementation: "-".into(), pred: "ok".into(), tag: "e2e-policy/no-loopback".into() });
+            continue;
+        };
+        let port = listener.local_addr().unwrap().port();
+        listener.set_nonblocking(true).unwrap();
+        let stop = std::sync::Arc::new(std::sync::atomic::AtomicBool::new(false));
+        let stop2 = stop.clone();
+        let served = std::sync::Arc::new(std::sync::atomic::AtomicUsize::new(0));
+        let served2 = served.clone();
+        let server = std::thread::spawn(move || {
+            while !stop2.load(std::sync::atomic::Ordering::SeqCst) {
+                match listener.accept() {
+                    Ok((mut s, _)) => {
+                        let _ = s.set_nonblocking(false);
+                        let _ = s.set_read_timeout(Some(std::time::Duration::from_millis(500)));
+                        let mut buf = [0u8; 2048];
+                        let _ = s.read(&mut buf);
+                        let _ = write!(s, "HTTP/1.1 200 OK\r\nContent-Type: text/plain\r\nContent-Length: {}\r\nConnection: close\r\n\r\n{}", body.len(), body);
+                        served2.fetch_add(1, std::sync::atomic::Ordering::SeqCst);
+                    }
+                    Err(_) => std::thread::sleep(std::time::Duration::from_millis(5)),
+                }
+            }
+        });
+        let dir = PathBuf::from(scratch).join(format!("pol{}", sink.n));
+        let home = PathBuf::from(scratch).join(format!("polhome{}", sink.n));
+        let _ = std::fs::remove_dir_all(&dir);
+        let _ = std::fs::remove_dir_all(&home);
+        std::fs::create_dir_all(dir.join("src")).unwrap();
+        std::fs::create_dir_all(dir.join(".git")).unwrap();
+        std::fs::create_dir_all(&home).unwrap();
+        std::fs::write(dir.join("src/a.rs"), "let x = 1;\n".repeat(3)).unwrap();
+        std::fs::write(dir.join(".sloc-guard.toml"), format!("version = \"2\"\nextends = \"http://127.0.0.1:{port}/base.toml\"\n[content]\nextensions = [\"rs\"]\n")).unwrap();
+        let run = |policy: &str| -> (i32, usize) {
+            let before = served.load(std::sync::atomic::Ordering::SeqCst);
+            let mut args: Vec<String> = cmd.iter().map(|s| (*s).to_string()).collect();
+            if label == "config validate" {
+                args.push("--config".into());
+                args.push(".sloc-guard.toml".into());
+            }
+            args.push(format!("--extends-policy={policy}"));
+            let o = std::process::Command::new(&bin)
+                .args(&args)
+                .current_dir(&dir)
+                .env("NO_COLOR", "1")
+                .env("HOME", &home)
+                .env("XDG_CACHE_HOME", home.join("cache"))
+                .env("no_proxy", "127.0.0.1")
+                .env_remove("http_proxy")
+                .env_remove("HTTP_PROXY")
+                .output()
+                .expect("run sloc-guard");
+            (o.status.code().unwrap_or(-1), served.load(std::sync::atomic::Ordering::SeqCst) - before)
+        };
+        let mut problems = vec![];
+        let (rc, n) = run("offline");
+        if n != 0 {
+            problems.push(format!("`{label} --extends-policy=offline` contacted the server ({n} request(s)) with an empty cache"));
+        }
+        if rc != 2 {
+            problems.push(format!("`{label} --extends-policy=offline` exits {rc} on a cache miss"));
+        }
+        let (rc, n) = run("normal");
+        if n != 1 || rc == 2 {
+            problems.push(format!("`{label} --extends-policy=normal` with an empty cache: {n} request(s), exit {rc}"));
+        }
+        let (rc, n) = run("offline");
+        if n != 0 || rc == 2 {
+            problems.push(format!("`{label} --extends-policy=offline` with a cached copy: {n} request(s), exit {rc}"));
+        }
+        let (rc, n) = run("refresh");
+        if n != 1 || rc == 2 {
+            problems.push(format!("`{label} --extends-policy=refresh` with a fresh cached copy: {n} request(s) (the cache answered), exit {rc}"));
+        }
+        let (_, n) = run("normal");
+        if n != 0 {
+            problems.push(format!("`{label} --extends-policy=normal` a moment after a fetch: {n} request(s)"));
+        }
+        stop.store(true, std::sync::atomic::Ordering::SeqCst);
+        let _ = server.join();
+        let _ = std::fs::remove_dir_all(&dir);
+        let _ = std::fs::remove_dir_all(&home);
+        sink.push(Case { request: "noop".into(), implementation: "-".into(), pred: if problems.is_empty() { "ok".into() } else { format!("FAIL {}", problems.join("; ")) }, tag: format!("e2e-policy/{label}") });
+    }
+}
+
 fn e2e_pins(sink: &mut Sink, scratch: &str) {
     use std::io::{Read, Write};
     let Ok(bin) = std::env::var("SGVERIF_BIN") else { return };
@@ -462,6 +567,7 @@ pub fn run(tier: Tier, seed: u64, out: &str) {
     crash_cases(&mut sink, &scratch);
     two_url_cases(&mut sink, &scratch);
     e2e_pins(&mut sink, &scratch);
+    e2e_policies(&mut sink, &scratch);
     sink.extra.insert("exhaustive_product".into(), serde_json::json!(108));
     sink.extra.insert("trivial_tag_prefixes".into(), serde_json::json!([]));
     sink.finish(out);
